@@ -371,6 +371,15 @@ class Run:
                 self.samples.append({"trace": name, "backend": backend, "events": sample_lines(nd, 1)})
         return rec
 
+    def traces_parallel(self, jobs, workers=5):
+        """jobs: list of dicts of keyword arguments for trace(); harness builds are done first, sequentially."""
+        from concurrent.futures import ThreadPoolExecutor
+        for j in jobs:
+            build(j.get("backend", "sse2"), j.get("release", False))
+        with ThreadPoolExecutor(max_workers=workers) as ex:
+            futs = [ex.submit(lambda kw=j: self.trace(**kw)) for j in jobs]
+            return [f.result() for f in futs]
+
     # ---- finish
     def finish(self, level="model_checking", rule=None, extra_cov=None):
         wall = time.time() - self.t0
